@@ -210,3 +210,85 @@ Proof.
   - rewrite (wc_desync_idle _ HW) in E. injection E as <- <-. done.
   - rewrite (wc_desync_other _ HW _ _ _ E Hn). done.
 Qed.
+
+Lemma awaits0_other s s' a old new f : a <> 0 -> stacks s !! a = Some old -> stacks s' = <[a := new]> (stacks s) -> awaits0 s f -> awaits0 s' f.
+Proof. intros Hne Ha Hs (st0 & H0 & Hin). exists st0. split; [|done]. by rewrite Hs, list_lookup_insert_ne. Qed.
+Lemma awaits0_self s s' old new f : stacks s !! 0 = Some old -> stacks s' = <[0 := new]> (stacks s) ->
+  (FAwRet f ∈ new \/ FPark f ∈ new) -> awaits0 s' f.
+Proof. intros Ha Hs Hin. exists new. split; [|done]. rewrite Hs, list_lookup_insert; [done|by eapply lookup_lt_Some]. Qed.
+
+Lemma zq_update s s' a old new : stacks s !! a = Some old -> stacks s' = <[a := new]> (stacks s) -> Inv_zq s ->
+  s'.(qs) <> WaitingForWake ->
+  (forall f, s'.(qs) = WaitingForPoll f ->
+     (s.(qs) = WaitingForPoll f /\ ((getf s f).(res) = FNone -> (getf s' f).(res) = FNone) /\
+        (a = 0 -> FAwRet f ∈ old \/ FPark f ∈ old -> FAwRet f ∈ new \/ FPark f ∈ new)) \/
+     ((getf s' f).(res) = FNone /\ a = 0 /\ (FAwRet f ∈ new \/ FPark f ∈ new))) -> Inv_zq s'.
+Proof.
+  intros Ha Hs [Q1 Q2] Hq H. split; [done|]. intros f Hf. destruct (H f Hf) as [(Hq0 & Hr & Hin)|(Hr & -> & Hin)].
+  - destruct (Q2 f Hq0) as [Hr0 Haw]. split; [by apply Hr|]. destruct (decide (a = 0)) as [->|Hne].
+    + destruct Haw as (st0 & H0 & Hi). assert (st0 = old) by congruence. subst st0.
+      eapply awaits0_self; [exact Ha|exact Hs|]. by apply Hin.
+    + by eapply awaits0_other.
+  - split; [done|]. by eapply awaits0_self.
+Qed.
+
+Section ZQ.
+  Context (T : ftables) (HT : own_cond T) (HW : wake_cond T) (HZ : zero_cond T).
+  Lemma step_zq s a s' : Inv_own s -> Inv_op s -> Inv_fut s -> Inv_zp s ->
+    (forall c st fr, stacks s !! c = Some st -> fr ∈ st -> rn2_ok s fr = true) -> Inv_zq s ->
+    step T s a = Some s' -> Inv_zq s'.
+  Proof.
+    intros HO HP HF HZP I2 [Q1 Q2] Hstep. pose proof (io_nopanic _ HO) as Hnp. step_split Hstep Ea Est.
+    all: try discriminate Hstep.
+    all: injection Hstep as <-.
+    all: pop_cont_split.
+    all: pose proof (stacks_lookup _ _ _ Ea) as Hst; rewrite Est in Hst.
+    all: try match goal with k : kont |- _ => destruct k end.
+    (* frames that do not occur in these programs *)
+    all: pose proof (zp_stacks _ HZP a _ Hst) as Hk; unfold stk_ok in Hk; cbn [forallb ok0 okf andb] in Hk.
+    all: destruct (bool_decide (a = 0)) eqn:Ea0; try discriminate Hk.
+    all: [> apply bool_decide_eq_true in Ea0 | apply bool_decide_eq_false in Ea0 ..] || idtac.
+    all: assert (Hrn := I2 a _ _ Hst ltac:(left)); cbn in Hrn; try discriminate Hrn.
+    all: eapply zq_update; [exact Hst| cbn [stacks]; rewrite ?stacks_setstack, ?stacks_settoken; reflexivity |done | cbn | cbn; intros f' Hq].
+    all: try (assert (Hrun := runner_owned s a _ HO Hst ltac:(cbn; lia))).
+    all: try match goal with
+      | E : t_wake_queue _ _ = (_, _) |- _ => pose proof (wq_keeps _ HW _ _ _ E Hnp Q1) as (K1 & K2 & K3)
+      | E : t_resched _ _ _ = (_, _) |- _ => pose proof (rq_keeps _ HW _ _ _ _ E Q1) as (K1 & K2 & K3)
+      | E : t_desync _ _ = (_, _) |- _ => pose proof (ds_keeps _ HW _ _ _ E Q1) as (K1 & K2 & K3)
+      | E : t_poll _ _ _ = (_, _) |- _ => pose proof (oc_poll _ HT _ _ _ _ E) as K1; cbn in K1
+      | |- context [t_wake_thread _ _] => pose proof (wt_keeps _ HW _ Hnp Q1) as (K1 & K2 & K3)
+      end.
+    all: try (first [exact Q1 | discriminate | exact K1]).
+    all: try (exfalso; rewrite Hq in Hrun; discriminate Hrun).
+    all: try (left; split; [first [exact Hq | by apply K2] | split;
+       [ intros Hr; unfold getf in *; cbn; exact Hr
+       | intros _ Hi; rewrite ?elem_of_app, !elem_of_cons in *; naive_solver ]]).
+    all: try (first [ subst q; exact Q1 | destruct K1 as (_ & _ & ->); discriminate ]).
+    - (* alloc *) left. split; [exact Hq|]. split.
+      + apply (res_none_alloc s _ [fc0]); [done|by repeat constructor].
+      + intros _ Hi; rewrite !elem_of_cons in *; naive_solver.
+    - (* poll stores the task waker *) left. split; [congruence|]. split.
+      + intros Hr. apply (res_none_keep (s <| qs := q |>)); [exact Hr|by left].
+      + intros _ Hi; rewrite !elem_of_cons in *; naive_solver.
+    - (* Ready, nothing popped *) left. split; [exact Hq|]. split.
+      + intros Hr. apply (res_none_keep s); [exact Hr|right; by rewrite E].
+      + intros _ Hi; rewrite !elem_of_cons in *; naive_solver.
+    - (* Ready, continuation popped *) exfalso.
+      pose proof (if_poll _ HF _ _ Hst) as Hpo. cbn in Hpo. apply andb_true_iff in Hpo as [Hpo _].
+      apply bool_decide_eq_true in Hpo. subst fc. destruct (Q2 f' Hq) as [Hr (st0 & H0 & Hin)].
+      rewrite Ea0 in Hst. rewrite Hst in H0. injection H0 as <-.
+      assert (Hz : cntf opfr rc = 0).
+      { destruct (HP 0 _ Hst) as [_ H]. cbn in H. lia. }
+      assert (Hno : forall x, x ∈ rc -> opfr x = false) by (by apply cntf_zero_all).
+      rewrite !elem_of_cons in Hin. destruct Hin as [[Hi|[Hi|Hi]]|[Hi|[Hi|Hi]]]; try discriminate Hi.
+      + injection Hi as ->. rewrite E in Hr. discriminate Hr.
+      + by specialize (Hno _ Hi).
+      + by specialize (Hno _ Hi).
+    - (* FDQwfp: the queue starts waiting for the caller's poll *)
+      injection Hq as <-. right. apply bool_decide_eq_true in Hrn. split; [exact Hrn|]. split; [done|].
+      pose proof (if_poll _ HF _ _ Hst) as Hpo. cbn in Hpo. apply andb_true_iff in Hpo as [Hpo _].
+      destruct rest as [|y rest']; [done|]. cbn in Hk. apply andb_true_iff in Hk as [Hy _].
+      destruct y; try discriminate Hpo; try discriminate Hy.
+      apply bool_decide_eq_true in Hpo. subst. left. rewrite !elem_of_cons. auto.
+  Qed.
+End ZQ.
